@@ -1,8 +1,159 @@
 import BddVerif.Drive.Util
-/-! Driver for C19 — stub, to be written. -/
-namespace B.Drive.C19
-open B B.Drive
+import BddVerif.Model.Ternary
+import BddVerif.Model.Sched
+import BddVerif.Gen.OpTables
+/-!
+Driver for C19. One case `C19.run n pool progs => seq thr again child after` is one multi-threaded
+run of the harness: `seq` = result texts of every thread's program run sequentially in the main
+thread, `thr`/`again`/`child` = FNV-1a hashes of the results of the same programs run by real
+concurrent threads / a second time / in a child process, `after` = the pool printed after all runs.
 
-def handle (key : String) (_ins _obs : List String) : Verdict := Verdict.bad ("key " ++ key)
+PREDICATE (evaluated here on the observed output):
+  * shape: one result list per program, one result per instruction;
+  * the hashes of `seq` are identical to `thr`, to `again` and to `child`;
+  * `after` is identical to the pool given as input, no result carries `!operand-changed`;
+  * functionality: within the case (across all threads) the same operation on operands with the same
+    values always has the same result — the modelling assumption of `Model/Sched.lean`, observed.
+MODEL: the programs are run through `B.Sched.run` (round-robin interleaving of all threads) with the
+operation function `opFn`: the Lean models `applyWithFlip` (regenerated tables), `bddNot`,
+`ternaryApply Gen.ite_` for and/or/xor/imp/iff/and_not/not/ite, the outcome `stuck` for operands
+that are not Bdds, `panic` for operands over different variable counts, and — for the operations this
+driver has no model of — the observed result of the same operation on the same operand values.
+`agree` = the model's result lists equal `seq`.
+-/
+namespace B.Drive.C19
+open B B.Drive Std
+
+def fnv (s : String) : UInt64 :=
+  s.toUTF8.foldl (fun h b => (h ^^^ b.toUInt64) * 0x100000001b3) 0xcbf29ce484222325
+
+def splitList (sep : String) (s : String) : List String := if s == "~" then [] else s.splitOn sep
+
+def isRef (a : String) : Bool :=
+  a.length ≥ 2 && (a.front == 'p' || a.front == 'l') && (a.drop 1).all Char.isDigit
+
+def parseRef (a : String) : Sched.Ref :=
+  let i := ((a.drop 1).toString.toNat?).getD 0
+  if a.front == 'p' then .pool i else .loc i
+
+/-- `name:arg,…` → the operation (the text with every operand reference blanked) and the references -/
+def parseInstr (ins : String) : Sched.Instr String :=
+  match ins.splitOn ":" with
+  | name :: rest =>
+    let args := if rest.isEmpty then [] else (":".intercalate rest).splitOn ","
+    let refs := (args.filter isRef).map parseRef
+    let blanked := args.map fun a => if isRef a then "_" else a
+    ⟨name ++ ":" ++ ",".intercalate blanked, refs⟩
+  | [] => ⟨ins, []⟩
+
+def opName (op : String) : String := (op.splitOn ":").headD ""
+
+def isBddText (v : String) : Bool := v.front == '|' && !(v.endsWith "!operand-changed")
+
+/-- the operations this driver recomputes with a Lean model -/
+def modelled (name : String) : Bool :=
+  ["and", "or", "xor", "imp", "iff", "and_not", "not", "ite"].contains name
+
+def modelOp (name : String) (vs : List String) : Option String :=
+  match name, vs.map parseArr? with
+  | "not", [some A] => some (showArr (bddNot A))
+  | "ite", [some A, some B, some C] =>
+    if numVars A != numVars B || numVars B != numVars C then some "panic"
+    else some (showArr (ternaryApply A B C Gen.ite_ none none none none))
+  | _, [some L, some R] =>
+    match Gen.builtin2.lookup name with
+    | some op => if numVars L != numVars R then some "panic" else some (showArr (applyWithFlip L R op none none none))
+    | none => none
+  | _, _ => none
+
+def opKey (op : String) (vs : List String) : String := op ++ " " ++ " ".intercalate vs
+
+/-- the operation function handed to the scheduling model -/
+def opFn (table : HashMap String String) (op : String) (vs : List String) : String :=
+  if !(vs.all isBddText) then "stuck"
+  else
+    let name := opName op
+    if modelled name then (modelOp name vs).getD "unmodelled"
+    else (table[opKey op vs]?).getD "unobserved"
+
+def showRes : Option String → String
+  | some r => r
+  | none => "stuck"
+
+/-- per thread: (operation, operand values as observed, observed result); `none` operands = dangling -/
+def observedCalls (pool : List String) (prog : List (Sched.Instr String)) (res : List String) :
+    List (String × Option (List String) × String) :=
+  let locs : List (Option String) := res.map some
+  (prog.zip res).mapIdx fun i (ins, r) => (ins.op, Sched.operands pool (locs.take i) ins, r)
+
+structure Fold where
+  table : HashMap String String := {}
+  conflict : Option String := none
+
+def buildTable (calls : List (String × Option (List String) × String)) : Fold :=
+  calls.foldl (init := {}) fun st (op, vs?, r) =>
+    match vs? with
+    | none => if r == "stuck" then st else { st with conflict := st.conflict <|> some ("dangling-not-stuck:" ++ op) }
+    | some vs =>
+      if !(vs.all isBddText) then
+        if r == "stuck" then st else { st with conflict := st.conflict <|> some ("non-bdd-operand-not-stuck:" ++ op) }
+      else
+        let k := opKey op vs
+        match st.table[k]? with
+        | some r0 => if r0 == r then st else { st with conflict := st.conflict <|> some ("not-a-function:" ++ op) }
+        | none => { st with table := st.table.insert k r }
+
+def hashesOf (rs : List String) : String :=
+  if rs.isEmpty then "~" else ".".intercalate (rs.map fun r => toString (fnv r).toNat)
+
+def firstFail (xs : List (Option String)) : Option String := xs.findSome? id
+
+def bucket (t : Nat) : String :=
+  if t ≤ 2 then "t2" else if t ≤ 4 then "t3-4" else if t ≤ 8 then "t5-8" else "t9-16"
+
+def handle (key : String) (ins obs : List String) : Verdict :=
+  match key, ins, obs with
+  | "C19.types", _, res :: _ =>
+    { agree := res == "ok", model := "ok", nontrivial := true, tags := ["send-sync"] }
+  | "C19.run", [_n, poolS, progsS], [seqS, thrS, againS, childS, afterS] =>
+    let pool := splitList "/" poolS
+    let progTexts := progsS.splitOn "/"
+    let progs : List (List (Sched.Instr String)) := progTexts.map fun p => (splitList ";" p).map parseInstr
+    let seq : List (List String) := (seqS.splitOn "/").map (splitList ";")
+    let nThreads := progs.length
+    -- shape
+    let shapeOk := seq.length == nThreads && (progs.zip seq).all fun (p, r) => p.length == r.length
+    if !shapeOk then { agree := false, model := "shape", fail := some "shape", nontrivial := false } else
+    let seqHashes := "/".intercalate (seq.map hashesOf)
+    let calls := (progs.zip seq).flatMap fun (p, r) => observedCalls pool p r
+    let fold := buildTable calls
+    -- the model: all threads interleaved round-robin by `Sched.run`
+    let progFn : Nat → Sched.Prog String := fun i => progs.getD i []
+    let maxLen := progs.foldl (fun m p => max m p.length) 0
+    let w := Sched.run (Sched.Sem.pure (opFn fold.table)) (Sched.roundRobin nThreads maxLen) progFn pool ()
+    let modelRes : List (List String) := (List.range nThreads).map fun i => (Sched.results w i).map showRes
+    let agree := modelRes == seq && w.pool == pool
+    let model :=
+      if agree then "" else
+        match ((List.range nThreads).zip (modelRes.zip seq)).find? fun (_, m, s) => m != s with
+        | some (t, m, s) =>
+          let i := ((m.zip s).takeWhile fun (a, b) => a == b).length
+          s!"thread{t}.instr{i}:{m.getD i "-"}"
+        | none => "?"
+    let fail := firstFail [
+      if thrS == seqHashes then none else some "threads-differ-from-sequential",
+      if againS == seqHashes then none else some "second-run-differs",
+      if childS == seqHashes then none else some "child-process-differs",
+      if afterS == poolS then none else some "pool-changed",
+      if seq.any (·.any (·.endsWith "!operand-changed")) then some "operand-changed" else none,
+      fold.conflict]
+    let all := seq.flatten
+    let nontrivial := nThreads ≥ 2 && all.any fun r => isBddText r && !(pool.contains r) && (r.splitOn "|").length > 4
+    { agree, model, fail, nontrivial,
+      tags := [bucket nThreads,
+        if progTexts.eraseDups.length < nThreads then "shared-program" else "distinct-programs"] ++
+        (if all.contains "panic" then ["has-panic"] else []) ++ (if all.contains "stuck" then ["has-stuck"] else []) ++
+        (if calls.any (fun c => modelled (opName c.1)) then ["has-modelled-op"] else []) }
+  | _, _, _ => Verdict.bad ("key " ++ key)
 
 end B.Drive.C19
